@@ -154,16 +154,82 @@ def stub_table(pyi_tree):
   return funs, vars_
 
 
+class _Dequalify(ast.NodeTransformer):
+  """What libcst's _TypeCollectorDequalifier does to dotted names: a.b.c -> c, at any depth, except
+  below the slice of Type[...]."""
+
+  def visit_Attribute(self, node):
+    return ast.Name(id=node.attr, ctx=ast.Load())
+
+  def visit_Subscript(self, node):
+    h = node.value
+    is_type = (isinstance(h, ast.Name) and h.id == "Type") or (
+        isinstance(h, ast.Attribute) and isinstance(h.value, ast.Name) and (h.value.id, h.attr) == ("typing", "Type"))
+    node.value = self.visit(h)
+    if not is_type:
+      node.slice = self.visit(node.slice)
+    return node
+
+
+def _has_dotted(a):
+  return any(isinstance(x, ast.Attribute) for x in ast.walk(a))
+
+
+def _dequalified_keys(anns):
+  """Keys of the stub annotations that contain a dotted name, after libcst's rewriting."""
+  return {_ann_key(_Dequalify().visit(copy.deepcopy(a))) for a in anns if a is not None and _has_dotted(a)}
+
+
 def _is_bare(a, names=("Any", "Never")):
   return isinstance(a, ast.Name) and a.id in names
 
 
 class Finding:
-  def __init__(self, kind, what):
-    self.kind, self.what = kind, what
+  def __init__(self, kind, what, cause=None):
+    self.kind, self.what, self.cause = kind, what, cause
 
   def __repr__(self):
     return "%s: %s" % (self.kind, self.what)
+
+
+def _scope_facts(tree):
+  """Root causes visible in the ORIGINAL program (function bodies are never visited by the merge):
+  names bound by a chained (`a = b = v`) or destructuring (tuple/list/starred, also mixed with attribute
+  or subscript elements) assignment somewhere inside a class body, and qualified names that are
+  assigned more than once by a plain single-name assignment."""
+  hoistable, counts = set(), {}
+  def names_of(t):
+    if isinstance(t, ast.Name):
+      yield t.id
+    elif isinstance(t, (ast.Tuple, ast.List)):
+      for e in t.elts:
+        yield from names_of(e)
+    elif isinstance(t, ast.Starred):
+      yield from names_of(t.value)
+    elif isinstance(t, (ast.Attribute, ast.Subscript)):
+      yield from names_of(t.value)        # libcst's get_full_name_for_node looks through these
+  def walk(body, chain):
+    for st in body:
+      if isinstance(st, (ast.FunctionDef, ast.AsyncFunctionDef)):
+        continue
+      if isinstance(st, ast.ClassDef):
+        walk(st.body, chain + [st.name])
+      elif isinstance(st, ast.Assign):
+        if len(st.targets) == 1 and isinstance(st.targets[0], ast.Name):
+          q = ".".join(chain + [st.targets[0].id])
+          counts[q] = counts.get(q, 0) + 1
+        elif chain:
+          for t in st.targets:
+            hoistable.update(names_of(t))
+      else:
+        for f in ("body", "orelse", "finalbody"):
+          sub = getattr(st, f, None)
+          if isinstance(sub, list) and sub and isinstance(sub[0], ast.stmt):
+            walk(sub, chain)
+        for h in (getattr(st, "handlers", None) or []) + (getattr(st, "cases", None) or []):
+          walk(h.body, chain)
+  walk(tree.body, [])
+  return hoistable, {q for q, n in counts.items() if n > 1}
 
 
 def oracle(py, pyi, out):
@@ -175,6 +241,8 @@ def oracle(py, pyi, out):
     return [Finding("output-does-not-compile", str(e))]
   o_tree, m_tree, s_tree = ast.parse(py), ast.parse(out), ast.parse(pyi)
   funs, vars_ = stub_table(s_tree)
+  hoistable, reassigned = _scope_facts(o_tree)
+  leak_possible = bool(reassigned & set(vars_))     # a re-assigned name the stub annotates
 
   def slot(kind, qn, o_ann, m_ann, stub_anns, where):
     """One annotation slot of a paired definition."""
@@ -184,21 +252,22 @@ def oracle(py, pyi, out):
       return
     if m_ann is None:
       return
-    if kind in ("ret", "var") and _is_bare(m_ann):
+    want = {_ann_key(a) for a in stub_anns if a is not None}
+    via_dotted = _ann_key(m_ann) not in want and _ann_key(m_ann) in _dequalified_keys(stub_anns)
+    dotted_txt = "/".join(ast.unparse(a) for a in stub_anns if a is not None and _has_dotted(a))
+    if kind in ("ret", "var") and _is_bare(m_ann) and not via_dotted:
       res.append(Finding("bare-any-never-inserted:" + kind, "%s gets `%s`" % (where, m_ann.id)))
     if qn is None:
       res.append(Finding("annotation-inserted-in-function-body", where))
       return
-    want = {_ann_key(a) for a in stub_anns if a is not None}
-    if _ann_key(m_ann) not in want:
-      # was it the last component of a dotted stub annotation?
-      dotted = {a.attr for a in stub_anns if isinstance(a, ast.Attribute)}
-      if isinstance(m_ann, ast.Name) and m_ann.id in dotted:
-        res.append(Finding("dotted-annotation-dequalified", "%s gets `%s`, the stub says `%s`" % (
-            where, ast.unparse(m_ann), "/".join(ast.unparse(a) for a in stub_anns if isinstance(a, ast.Attribute)))))
-      else:
-        res.append(Finding("inserted-annotation-not-the-stubs", "%s gets `%s`, the stub gives %s" % (
-            where, ast.unparse(m_ann), sorted(ast.unparse(a) for a in stub_anns if a is not None) or "nothing")))
+    if via_dotted:
+      # root cause: a dotted name (at any depth) of the stub annotation was rewritten to its last component
+      res.append(Finding("dotted-annotation-dequalified", "%s gets `%s`, the stub says `%s`" % (
+          where, ast.unparse(m_ann), dotted_txt)))
+    elif _ann_key(m_ann) not in want:
+      res.append(Finding("inserted-annotation-not-the-stubs", "%s gets `%s`, the stub gives %s" % (
+          where, ast.unparse(m_ann), sorted(ast.unparse(a) for a in stub_anns if a is not None) or "nothing"),
+          cause="reassigned-annotated-name" if leak_possible else None))
 
   def cmp_fun(o, m, qn):
     if _Erase().visit(copy.deepcopy(o)) is None:
@@ -281,17 +350,20 @@ def oracle(py, pyi, out):
       continue
     elif isinstance(st, ast.AnnAssign) and st.value is None and isinstance(st.target, ast.Name):
       qn = st.target.id
-      if _is_bare(st.annotation):
+      given = vars_.get(qn, [])
+      want = {_ann_key(a) for a in given}
+      key = _ann_key(st.annotation)
+      via_dotted = key not in want and key in _dequalified_keys(given)
+      if _is_bare(st.annotation) and not via_dotted:
         res.append(Finding("bare-any-never-inserted:var", "declaration `%s` inserted" % ast.unparse(st)))
-      want = {_ann_key(a) for a in vars_.get(qn, [])}
-      if _ann_key(st.annotation) not in want:
-        dotted = {a.attr for a in vars_.get(qn, []) if isinstance(a, ast.Attribute)}
-        if isinstance(st.annotation, ast.Name) and st.annotation.id in dotted:
-          res.append(Finding("dotted-annotation-dequalified", "module-level `%s` inserted, the stub says `%s`" % (
-              ast.unparse(st), "/".join(ast.unparse(a) for a in vars_.get(qn, []) if isinstance(a, ast.Attribute)))))
-        else:
-          res.append(Finding("hoisted-declaration-not-the-stubs", "module-level `%s` inserted, the stub gives %s for %s" % (
-              ast.unparse(st), sorted(ast.unparse(a) for a in vars_.get(qn, [])) or "nothing", qn)))
+      if via_dotted:
+        res.append(Finding("dotted-annotation-dequalified", "module-level `%s` inserted, the stub says `%s`" % (
+            ast.unparse(st), "/".join(ast.unparse(a) for a in given if _has_dotted(a)))))
+      elif key not in want:
+        res.append(Finding("hoisted-declaration-not-the-stubs", "module-level `%s` inserted, the stub gives %s for %s" % (
+            ast.unparse(st), sorted(ast.unparse(a) for a in given) or "nothing", qn),
+            cause="class-level-chained-or-destructuring-assignment" if qn in hoistable else
+                  ("reassigned-annotated-name" if leak_possible else None)))
     elif isinstance(st, ast.ClassDef):
       res.append(Finding("fresh-class-inserted", "class %s of the stub was inserted into the source" % st.name))
     else:
@@ -311,6 +383,8 @@ def _stub_has_dotted(pyi):
       anns.append(n.annotation)
     elif isinstance(n, ast.AnnAssign):
       anns.append(n.annotation)
+    elif isinstance(n, ast.ClassDef):
+      anns.extend(n.bases)
   return any(isinstance(x, ast.Attribute) for a in anns for x in ast.walk(a))
 
 
@@ -321,10 +395,16 @@ def fingerprint(f, variant, bits):
     return "annassign-any-not-stripped" if variant == "as-written" else "annassign-any-inserted-despite-fix"
   if k in ("dotted-annotation-dequalified", "non-typing-import-added"):
     return "dotted-annotation-bogus-import"
-  if k == "inserted-annotation-not-the-stubs" and bits & 4:
+  # root cause first (established by the oracle on the original program), the model's monitor second
+  if k == "inserted-annotation-not-the-stubs" and (f.cause == "reassigned-annotated-name" or bits & 4):
     return "reassigned-variable-qualifier-leak"
-  if k == "hoisted-declaration-not-the-stubs" and bits & 8:
-    return "chained-assign-declaration-hoisted"
+  if k == "hoisted-declaration-not-the-stubs":
+    if f.cause == "class-level-chained-or-destructuring-assignment":
+      return "chained-assign-declaration-hoisted"
+    if f.cause == "reassigned-annotated-name" or bits & 4:
+      return "reassigned-variable-qualifier-leak"      # module-level destructuring under a leaked qualifier
+    if bits & 8:
+      return "chained-assign-declaration-hoisted"
   return k
 
 
@@ -356,14 +436,15 @@ def hash_tokens(toks):
 
 
 def run_model(cases, tag):
-  """cases: list of coq case texts.  Returns a list of (hash as-written, hash fixed, monitor bits)
-  (None where the model run failed)."""
+  """cases: list of coq case texts.  Returns a list of (hash as-written, hash fixed, monitor bits of the
+  as-written run, monitor bits of the fixed run) (None where the model run failed)."""
   files = []
   for k in range(0, len(cases), CASES_PER_FILE):
     chunk = cases[k:k + CASES_PER_FILE]
     body = HEADER + "Definition cases : list (list item * list item) := [\n" + \
         ";\n".join(chunk) + "].\nEval vm_compute in (map check_case cases).\n"
-    files.append(("c20_%s_%d" % (tag, k // CASES_PER_FILE), body, len(chunk)))
+    # the process id keeps concurrent runs (other VERIF_REPO, other seed) from sharing case files
+    files.append(("c20_%s_%d_%d" % (tag, os.getpid(), k // CASES_PER_FILE), body, len(chunk)))
   results = {}
   pending = [(n, b) for n, b, _ in files]
   # at most 4 coqc at a time (shared machine)
@@ -379,19 +460,24 @@ def run_model(cases, tag):
       ev = common.parse_coq_eval(txt)
       if ev:
         nums = [int(x) for x in re.findall(r"\d+", ev[0])]
-        vals = [tuple(nums[i:i + 3]) for i in range(0, len(nums), 3)] if len(nums) % 3 == 0 else None
+        vals = [tuple(nums[i:i + 4]) for i in range(0, len(nums), 4)] if len(nums) % 4 == 0 else None
     if vals is None or len(vals) != cnt:
       logs.append("%s: %s" % (n, txt[-1500:]))
       out += [None] * cnt
     else:
       out += vals
+      for ext in (".v", ".vo", ".vok", ".vos", ".glob"):
+        try:
+          os.unlink(os.path.join(common.BUILD, "cases", n + ext))
+        except OSError:
+          pass
   return out, logs
 
 
 def model_tokens(case_text, variant):
   body = HEADER + "Eval vm_compute in (let '(p, s) := %s in ser_merged (merge %s p s)).\n" % (
       case_text, "AsWritten" if variant == "as-written" else "Fixed")
-  ok, txt = common.run_cases_v("c20_debug", body)
+  ok, txt = common.run_cases_v("c20_debug_%d" % os.getpid(), body)
   ev = common.parse_coq_eval(txt) if ok else []
   return [int(x) for x in re.findall(r"\d+", ev[0])] if ev else txt[-800:]
 
@@ -471,6 +557,112 @@ def _work(job):
   return d
 
 
+# ---------------------------------------------------------------------------------------------
+# file-level leg: the real entry points (merge_files / main -i / merge_tree) in a scratch directory
+
+FILE_ENTRIES = ("merge_files", "main", "merge_tree")
+
+
+def long_case(n=60):
+  """Many lines, one small insertion: a CRLF input shrinks by more bytes than the merge adds."""
+  py = "".join("v%d = f(%d)\n" % (i, i) for i in range(n)) + "def g(a):\n  return a\n"
+  return py, "v0: list[int]\ndef g(a: list[int]) -> None: ...\n"
+
+
+def file_case(py, pyi, newline, backup, entry, workdir):
+  """Runs one file-level merge.  Returns a list of Finding (kinds file-*)."""
+  import contextlib
+  import io as _io
+  import shutil
+  from pytype.tools.merge_pyi import main as merge_main
+  from pytype.tools.merge_pyi import merge_pyi
+  shutil.rmtree(workdir, ignore_errors=True)
+  src_dir, pyi_dir = os.path.join(workdir, "src"), os.path.join(workdir, "pyi")
+  os.makedirs(src_dir)
+  os.makedirs(pyi_dir)
+  nl = "\r\n" if newline == "CRLF" else "\n"
+  orig_bytes = py.replace("\n", nl).encode()
+  pyi_bytes = pyi.replace("\n", nl).encode()
+  py_path, pyi_path = os.path.join(src_dir, "mod.py"), os.path.join(pyi_dir, "mod.pyi")
+  with open(py_path, "wb") as f:
+    f.write(orig_bytes)
+  with open(pyi_path, "wb") as f:
+    f.write(pyi_bytes)
+  with open(py_path) as f:
+    py_read = f.read()
+  with open(pyi_path) as f:
+    pyi_read = f.read()
+  try:
+    ref = merge_pyi.merge_sources(py=py_read, pyi=pyi_read)
+  except merge_pyi.MergeError:
+    return []
+  res = []
+  changed = None
+  try:
+    if entry == "merge_files":
+      changed = merge_pyi.merge_files(py_path=py_path, pyi_path=pyi_path, mode=merge_pyi.Mode.OVERWRITE, backup=backup)
+    elif entry == "main":
+      with contextlib.redirect_stdout(_io.StringIO()):
+        merge_main.main(["merge-pyi", "-i"] + (["-b", backup] if backup else []) + [py_path, pyi_path])
+    else:
+      changed_files, errors = merge_pyi.merge_tree(py_path=src_dir, pyi_path=pyi_dir, backup=backup)
+      if errors:
+        return [Finding("file-entry-point-raised", "merge_tree: %r" % (errors[0][1],))]
+      changed = bool(changed_files)
+  except Exception as e:
+    return [Finding("file-entry-point-raised", "%s: %r" % (entry, e))]
+  with open(py_path, "rb") as f:
+    new_bytes = f.read()
+  expect_change = ref != py_read
+  if changed is not None and bool(changed) != expect_change:
+    res.append(Finding("file-changed-flag-wrong", "%s returned changed=%r, merge_sources %s the text" % (
+        entry, changed, "changes" if expect_change else "does not change")))
+  if not expect_change:
+    if new_bytes != orig_bytes:
+      res.append(Finding("file-unchanged-but-rewritten", "nothing to merge, but the file bytes differ"))
+  else:
+    try:
+      new_text = new_bytes.decode().replace("\r\n", "\n")
+    except UnicodeDecodeError:
+      new_text = None
+    if new_text != ref:
+      what = "the file written by %s differs from merge_sources' output" % entry
+      if new_text is not None and new_text.startswith(ref):
+        what += ": %d stale bytes follow the merged text" % (len(new_text) - len(ref))
+      res.append(Finding("file-output-differs-from-merge_sources", what))
+      # the direct oracle on the file itself
+      try:
+        compile(new_bytes, "<file>", "exec", dont_inherit=True)
+        fs = {f.kind for f in oracle(py_read, pyi_read, new_bytes.decode())} - {f.kind for f in oracle(py_read, pyi_read, ref)}
+        for k in sorted(fs):
+          res.append(Finding("file-" + k, "the written file violates the property where merge_sources' output does not"))
+      except (SyntaxError, ValueError, UnicodeDecodeError) as e:
+        res.append(Finding("file-output-does-not-compile", str(e)[:200]))
+  others = sorted(os.listdir(src_dir))
+  want = ["mod.py"] + (["mod.py." + backup] if backup and expect_change else [])
+  if others != sorted(want):
+    res.append(Finding("file-backup-wrong", "directory holds %s, expected %s" % (others, sorted(want))))
+  elif backup and expect_change:
+    with open(py_path + "." + backup, "rb") as f:
+      if f.read() != orig_bytes:
+        res.append(Finding("file-backup-wrong", "the backup is not the original file byte for byte"))
+  with open(pyi_path, "rb") as f:
+    if f.read() != pyi_bytes:
+      res.append(Finding("file-stub-modified", "the stub file was modified"))
+  shutil.rmtree(workdir, ignore_errors=True)
+  return res
+
+
+def _file_work(job):
+  py, pyi, newline, backup, entry = job
+  workdir = os.path.join(common.BUILD, "c20", "files", "%d" % os.getpid())
+  try:
+    fs = file_case(py, pyi, newline, backup, entry, workdir)
+  except Exception as e:
+    fs = [Finding("file-leg-crashed", repr(e))]
+  return job, fs
+
+
 def shrink(py, pyi, fp, variant_bits, budget_s=20.0):
   """Greedy line removal on both texts while the oracle still reports the same finding kind."""
   deadline = time.time() + budget_s
@@ -511,7 +703,10 @@ def run(res):
               "definitions (full / sparse / adversarial: conflicting annotations, renamed positionals, changed "
               "signature shapes, duplicate defs, shuffled order, dotted and quoted annotations)"
               + ("; thorough adds the stub pytype infers (io.generate_pyi)" if thorough else "") +
-              ". A case is non-trivial when the merge changed the source; distinct by (program, stub) text.")
+              ". A case is non-trivial when the merge changed the source; distinct by (program, stub) text. "
+              "File-level leg: corpus + a long file + sampled generated inputs written LF / CRLF into a scratch "
+              "directory and merged in place by merge_files, main -i and merge_tree, with and without backup; the "
+              "file must equal merge_sources' output, the backup the original bytes.")
   res.assumptions = [
       "libcst 1.4.0 is modelled (TypeCollector, ApplyTypeAnnotationsVisitor, AddImportsVisitor), not verified: bound to the "
       "model only by this correspondence",
@@ -533,8 +728,21 @@ def run(res):
   n_inferred = 0
   import multiprocessing
   from pytype.tools.merge_pyi import merge_pyi  # noqa: F401  (imported before forking)
+  # file-level leg: corpus + the long file + a few generated programs, LF and CRLF, with and without
+  # backup, through merge_files, main -i and merge_tree
+  fr = common.rng(res.seed, "c20-files")
+  base = [(py, pyi) for _, py, pyi in inputs[:len(corpus_cases())]] + [long_case()]
+  gen_inputs = [(py, pyi) for n, py, pyi in inputs[len(corpus_cases()):] if pyi is not None]
+  base += fr.sample(gen_inputs, min(len(gen_inputs), 40 if thorough else 6))
+  file_jobs = []
+  for k, (py, pyi) in enumerate(base):
+    combos = [(nl, bk, en) for nl in ("LF", "CRLF") for bk in (None, "bak") for en in FILE_ENTRIES]
+    if not thorough:      # quick: every input under CRLF/merge_files, plus two more random combinations
+      combos = [("CRLF", None, "merge_files")] + fr.sample(combos, 2)
+    file_jobs += [(py, pyi, nl, bk, en) for nl, bk, en in combos]
   with multiprocessing.get_context("fork").Pool(4) as pool:
     done = pool.map(_work, inputs, chunksize=8)
+    file_done = pool.map(_file_work, file_jobs, chunksize=4)
   for d in done:
     if d.get("inferred"):
       n_inferred += 1
@@ -549,9 +757,10 @@ def run(res):
   res.extra["impl_seconds"] = round(time.time() - t_impl, 1)
   t_model = time.time()
   raw, logs = run_model([c["coq"] for c in recs], "q" if not thorough else "t")
-  # bit 1: as-written model = implementation, bit 2: fixed model = implementation, then the monitors
+  # bit 1: as-written model = implementation, bit 2: fixed model = implementation (the monitors of the
+  # variant the tree follows are added once that variant is known)
   bits = [None if x is None else
-          (1 if x[0] == hash_tokens(c["tokens"]) else 0) + (2 if x[1] == hash_tokens(c["tokens"]) else 0) + x[2]
+          (1 if x[0] == hash_tokens(c["tokens"]) else 0) + (2 if x[1] == hash_tokens(c["tokens"]) else 0)
           for c, x in zip(recs, raw)]
   res.extra["model_seconds"] = round(time.time() - t_model, 1)
   if logs:
@@ -574,6 +783,7 @@ def run(res):
   res.obligation("correspondence:variants-distinguished", n_diff > 0,
                  "%d cases tell the as-written and the fixed leave_AnnAssign apart" % n_diff)
   mism = [(c, b) for c, b in ok_cases if not b & vbit]
+  bits = [None if b is None else b + x[2 if variant == "as-written" else 3] for b, x in zip(bits, raw)]
   # oracle on every case; model monitors choose the fingerprint only
   hist = {"changed": 0, "unchanged": 0, "merge-error": 0}
   mon = {"leak": 0, "clsdecl": 0, "non-typing-import": 0, "fresh-class": 0, "generic-base": 0}
@@ -599,6 +809,14 @@ def run(res):
     for f in fs:
       fp = fingerprint(f, variant, b)
       reported.setdefault(fp, []).append((c, f))
+  file_hist = {}
+  for (py, pyi, nl, bk, en), fs in file_done:
+    res.count(("file", py, pyi, nl, bk, en))
+    file_hist[nl + ("+backup" if bk else "") + ":" + en] = file_hist.get(nl + ("+backup" if bk else "") + ":" + en, 0) + 1
+    for f in fs:
+      reported.setdefault(f.kind, []).append(({"py": py, "pyi": pyi, "name": "file:%s:%s:%s" % (nl, bk, en),
+                                               "file": {"newline": nl, "backup": bk, "entry": en}}, f))
+  res.extra["file_leg"] = {"runs": len(file_done), "combinations": file_hist}
   res.extra["oracle_finding_cases"] = {k: len(v) for k, v in reported.items()}
   # every finding must be explained by a failed hypothesis of the partial theorems: the leak / hoisting
   # fingerprints are only given when the model's monitor fired; a dotted-annotation finding needs a
@@ -613,6 +831,10 @@ def run(res):
       res.violation(fp, f.what, {"py": c["py"], "pyi": c["pyi"]})
       continue
     if len(res.violations) >= 3:
+      continue
+    if "file" in c:
+      res.violation(fp, "%s [%s, %s]" % (f.what, c["name"], f.kind),
+                    {"py": c["py"], "pyi": c["pyi"], "file": c["file"], "kind": f.kind})
       continue
     py, pyi = shrink(c["py"], c["pyi"], f.kind, 0)
     res.violation(fp, "%s [%s]" % (f.what, f.kind), {"py": py, "pyi": pyi, "case": c["name"], "kind": f.kind})
@@ -650,6 +872,14 @@ def common_coqchk(pid):
 def replay(res, path):
   common.bootstrap_pytype()
   d = json.load(open(path))["replay"]
+  if "file" in d:
+    fm = d["file"]
+    fs = file_case(d["py"], d["pyi"], fm["newline"], fm["backup"], fm["entry"],
+                   os.path.join(common.BUILD, "c20", "files", "replay"))
+    print("---- py (%s)\n%s---- pyi\n%s---- entry %s, backup %r" % (fm["newline"], d["py"], d["pyi"], fm["entry"], fm["backup"]))
+    for f in fs:
+      print("FINDING", f)
+    return 1 if fs else 0
   out, err = impl_merge(d["py"], d["pyi"])
   print("---- py\n" + d["py"] + "---- pyi\n" + d["pyi"])
   if out is None:
@@ -658,5 +888,5 @@ def replay(res, path):
   print("---- merged\n" + out)
   fs = oracle(d["py"], d["pyi"], out)
   for f in fs:
-    print("FINDING", f)
+    print("FINDING", f, "| cause:", f.cause, "| fingerprint:", fingerprint(f, "fixed", 0))
   return 1 if fs else 0
